@@ -221,7 +221,7 @@ func runMysql(r *core.Run) {
 			r.Check(bytes.Equal(out, enc), "my-textrow-identity", "identity transformation changed the text row bytes")
 		}
 		// through the real decoder/encoder subscribers with no column settings: byte-identical
-		chain := r.Impl(fmt.Sprintf("C12.my.chain text %s %s", showNats(make([]uint16, len(row))), core.Hex(enc)))
+		chain := r.Do(fmt.Sprintf("C12.my.chain text %s %s", showNats(make([]uint16, len(row))), core.Hex(enc)))
 		r.Check(chain == core.OkHex(enc), "my-chain-identity-text", "text row changed by the decoder/encoder subscribers although no column is configured: "+chain)
 	}
 	// malformed text rows
@@ -300,7 +300,20 @@ func runMysql(r *core.Run) {
 			}
 		}
 		r.Begin(fmt.Sprintf("my-chain-bin-%s-%s", showNats(types), showRow(row)), len(row) > 0, "stream:structured", "my:chain-bin")
-		chain := r.Impl(fmt.Sprintf("C12.my.chain bin %s %s", showNats(types), core.Hex(enc)))
+		// FLOAT / DOUBLE columns are outside the model of the encoder (strconv float formatting): implementation only
+		line := fmt.Sprintf("C12.my.chain bin %s %s", showNats(types), core.Hex(enc))
+		hasFloat := false
+		for j, t := range types {
+			if (t == 4 || t == 5) && row[j] != nil {
+				hasFloat = true
+			}
+		}
+		var chain string
+		if hasFloat {
+			chain = r.Impl(line)
+		} else {
+			chain = r.Do(line)
+		}
 		r.Check(chain == core.OkHex(enc), class, fmt.Sprintf("binary row changed by the decoder/encoder subscribers although no column is configured: types=%s in=%s out=%s", showNats(types), core.Hex(enc), chain))
 	}
 	// malformed binary rows
